@@ -288,8 +288,15 @@ func (w *World) do(op Op) string {
 		for i := range j {
 			j[i] = byte(r.Intn(256))
 		}
-		if n >= 12 && r.Chance(1, 2) {
-			copy(j[n-12:], "3e4a5p3e4a5p") // looks like the end of a root record, but is not one
+		switch op.Prio % 3 {
+		case 1:
+			if n >= 12 {
+				copy(j[n-12:], "3e4a5p3e4a5p") // looks like the end of a root record, but is not one
+			}
+		case 2:
+			for i := range j {
+				j[i] = 0 // a file extended by a crash but never written
+			}
 		}
 		w.File.mu.Lock()
 		w.File.data = append(w.File.data, j...)
